@@ -15,8 +15,6 @@ import (
 
 	"github.com/btcsuite/btcd/wire"
 	"github.com/btcsuite/btcwallet/walletdb"
-
-	"verifharness/internal/simchain"
 )
 
 type probeAction struct {
@@ -36,7 +34,10 @@ type probeResult struct {
 	ResendWhere            string                 `json:"resend_where"`
 	RemoveIsRecursive      bool                   `json:"remove_unmined_is_remove_conflict"`
 	RemoveWhere            string                 `json:"remove_where"`
-	Scenarios              int                    `json:"scenarios"`
+	// per sentinel of the regenerated list: what PublishTransaction does when
+	// the backend answers with it (plain AND wrapped with %w, which must agree)
+	SentinelActions map[string]probeAction `json:"sentinel_actions"`
+	Scenarios       int                    `json:"scenarios"`
 }
 
 type attemptObs struct {
@@ -126,13 +127,60 @@ func probeAttempt(seed int64, chained bool, ans string, nfail bool) (attemptObs,
 	if nfail {
 		nf = 1
 	}
-	wd.ch.script([]simchain.SendAnswer{answerOf(ans)}, 0, nf)
+	spec, err := parseAnswer(ans)
+	if err != nil {
+		return o, err
+	}
+	wd.ch.script([]ansSpec{spec}, 0, nf)
 	callErr := wd.w.PublishTransaction(tx, "probe")
 	wd.ch.clear()
 	wd.ch.hookNotify, wd.ch.hookSend = nil, nil
 	o.isErr = callErr != nil
 	o.stays = wd.isUnmined(tx)
 	return o, nil
+}
+
+// probeSentinel: one funded wallet; for each answer in turn a FRESH
+// transaction is created and handed to PublishTransaction.
+func probeSentinel(seed int64, answers []string) ([]attemptObs, error) {
+	wd, err := newWorld(seed)
+	if err != nil {
+		return nil, err
+	}
+	defer wd.env.Close()
+	if err := wd.opFund(opIn{Amts: []int64{1000000, 600000}}); err != nil {
+		return nil, err
+	}
+	if err := wd.mineBlock(nil, "mine"); err != nil {
+		return nil, err
+	}
+	var out []attemptObs
+	for i, ans := range answers {
+		tx, err := wd.createTx(opIn{Amt: 90000 + int64(i)*1000, Minconf: 0})
+		if err != nil {
+			return nil, err
+		}
+		if _, err := wd.addTx(tx, true); err != nil {
+			return nil, err
+		}
+		spec, err := parseAnswer(ans)
+		if err != nil {
+			return nil, err
+		}
+		var o attemptObs
+		wd.ch.hookSend = func(m *wire.MsgTx) { o.nSend++ }
+		wd.ch.script([]ansSpec{spec}, 0, 0)
+		callErr := wd.w.PublishTransaction(tx, "probe")
+		wd.ch.clear()
+		wd.ch.hookSend = nil
+		if o.nSend != 1 {
+			return nil, fmt.Errorf("probe: %s: %d SendRawTransaction calls", ans, o.nSend)
+		}
+		o.isErr = callErr != nil
+		o.stays = wd.isUnmined(tx)
+		out = append(out, o)
+	}
+	return out, nil
 }
 
 // chainWorld: parent -> child -> grandchild (each spends the previous change)
@@ -240,6 +288,29 @@ func runProbe() (probeResult, error) {
 	}
 	res.NotifyRemoves, res.NotifyIsError = !nfFirst.stays, nfFirst.isErr
 
+	// 1b. EVERY sentinel of the list regenerated from package chain, plain and
+	//     wrapped (errors.Is must see through %w), and an error that is no
+	//     sentinel: nothing is taken from the five classes above.
+	res.SentinelActions = map[string]probeAction{}
+	for _, sn := range chainSrc.Sentinels {
+		obs, err := probeSentinel(next(), []string{"s:" + sn.Name, "w:" + sn.Name, "w:" + sn.Name, "s:" + sn.Name})
+		if err != nil {
+			return res, err
+		}
+		for _, o := range obs[1:] {
+			if o.isErr != obs[0].isErr || o.stays != obs[0].stays {
+				return res, fmt.Errorf("probe: chain.%s is treated differently when wrapped with %%w or on a chained transaction", sn.Name)
+			}
+		}
+		res.SentinelActions[sn.Name] = probeAction{Removes: !obs[0].stays, IsError: obs[0].isErr, Where: "probe"}
+	}
+	for key, name := range map[string]string{"in_mempool": "ErrTxAlreadyInMempool", "already_known": "ErrTxAlreadyKnown", "already_confirmed": "ErrTxAlreadyConfirmed"} {
+		a, b := res.Classes[key], res.SentinelActions[name]
+		if a.Removes != b.Removes || a.IsError != b.IsError {
+			return res, fmt.Errorf("probe: instances of chain.%s disagree", name)
+		}
+	}
+
 	// 2. RemoveUnminedTx is the recursive removal: refuse the re-broadcast of
 	//    the parent of a chain with an answer class that removes; the fact is
 	//    true iff child and grandchild are gone as well.
@@ -256,7 +327,8 @@ func runProbe() (probeResult, error) {
 			if err != nil {
 				return res, err
 			}
-			wd.ch.script([]simchain.SendAnswer{answerOf(removing)}, 0, 0)
+			rspec, _ := parseAnswer(removing)
+			wd.ch.script([]ansSpec{rspec}, 0, 0)
 			_ = wd.w.PublishTransaction(chain[0].tx, "probe")
 			wd.ch.clear()
 			if wd.isUnmined(chain[0].tx) {
@@ -284,7 +356,7 @@ func runProbe() (probeResult, error) {
 			n0 := wd.ch.sentCount()
 			wd.ch.script(nil, 0, 0)
 			wd.w.VerifResendUnminedTxs()
-			offered, _ := wd.offeredIDs(wd.ch.sentSince(n0))
+			offered, _, _ := wd.offeredIDs(wd.ch.sentSince(n0))
 			pos := map[uint64]int{}
 			for j, id := range offered {
 				pos[id] = j
@@ -317,13 +389,14 @@ func runProbe() (probeResult, error) {
 				wd.env.Close()
 				return res, err
 			}
-			answers := []simchain.SendAnswer{simchain.Accept, simchain.Accept, simchain.Accept, simchain.Accept}
-			answers[posn] = answerOf(a)
+			acc, _ := parseAnswer("accept")
+			answers := []ansSpec{acc, acc, acc, acc}
+			answers[posn], _ = parseAnswer(a)
 			n0 := wd.ch.sentCount()
 			wd.ch.script(answers, 0, 0)
 			wd.w.VerifResendUnminedTxs()
 			wd.ch.clear()
-			offered, _ := wd.offeredIDs(wd.ch.sentSince(n0))
+			offered, _, _ := wd.offeredIDs(wd.ch.sentSince(n0))
 			for _, id := range before.Unmined {
 				if has(offered, id) != 1 {
 					res.ResendEvery = false
